@@ -32,7 +32,7 @@ class aggregate_node_transformer(ast.NodeTransformer):
         # A shortcut has exactly one argument, the sequence: not `Sum(a, start=5)`, not `Sum(*a)`
         if (
             type(node.func) is ast.Name
-            and len(node.args) == 1
+            and len(getattr(node, "args", [])) == 1
             and len(getattr(node, "keywords", [])) == 0
             and not isinstance(node.args[0], ast.Starred)
         ):
